@@ -138,23 +138,23 @@ func (d *Doc) Menu(f Field) []uint64 {
 	var m []uint64
 	switch f.Kind {
 	case "count16":
-		m = []uint64{0, 1, cur - 1, cur + 1, 128, 129, 0xffff}
+		m = []uint64{0, 1, cur - 1, cur + 1, 128, 129, 0x7fff, 0x8000, 0xfffe, 0xffff}
 	case "count32":
 		m = []uint64{0, 1, 2, 3, 4, 5, cur - 1, cur + 1, 1023, 1024, 1025, 4097, 0x10000, 0x7fffffff, 0x80000000, 0xffffffff}
 	case "type16":
 		m = []uint64{0, 1, 2, 3, 4, 5, 6, 7, 10, 12, 13, 0xf0, 0xf1, 0xffff}
 	case "len16":
-		m = []uint64{0, 1, 2, 3, 7, 8, 9, cur - 1, cur + 1, cur + 2, 0x7fff, 0xffff}
+		m = []uint64{0, 1, 2, 3, 7, 8, 9, cur - 1, cur + 1, cur + 2, 0x7fff, 0x8000, 0xfffd, 0xfffe, 0xffff}
 	case "len32", "size32":
-		m = []uint64{0, 1, 2, 7, 8, 9, 15, 16, 17, cur - 1, cur + 1, cur + 8, total, total + 1, 0x7fffffff, 0x80000000, 0xfffffff0, 0xffffffff}
+		m = []uint64{0, 1, 2, 7, 8, 9, 15, 16, 17, cur - 1, cur + 1, cur + 8, total, total + 1, 0xffff, 0x10000, 0xa00000, 0x7ffffffe, 0x7fffffff, 0x80000000, 0xfffffff0, 0xfffffffe, 0xffffffff}
 	case "size64":
 		m = []uint64{0, 1, 8, 15, 16, 17, cur - 1, cur + 1, total + 1, 1<<31 - 1, 1 << 31, 1<<32 - 1, 1 << 32, 1<<63 - 1, 1 << 63, 1<<64 - 1}
 	case "off32":
 		m = []uint64{0, 1, 4, 8, cur - 1, cur + 1, cur - 12, cur + 12, total - 1, total, total + 1, 0x7fffffff, 0x80000000, 0xffffffff}
 	case "val32":
-		m = []uint64{0, 1, cur + 1, 0xffff, 0x10000, 0x7fffffff, 0x80000000, 0xffffffff}
+		m = []uint64{0, 1, cur - 1, cur + 1, 0xffff, 0x10000, 0x7fffffff, 0x80000000, 0xfffffffe, 0xffffffff}
 	case "val16":
-		m = []uint64{0, 1, cur + 1, 0x7fff, 0x8000, 0xffff}
+		m = []uint64{0, 1, cur - 1, cur + 1, 0x7fff, 0x8000, 0xfffe, 0xffff}
 	case "byte", "ver8":
 		m = []uint64{0, 1, 2, 3, 0x7f, 0x80, 0xff}
 	case "nib8":
